@@ -343,6 +343,15 @@ impl Family for ConcFamily {
 /// Keep a scenario inside the family's rules (used after generation and after each shrink step).
 pub fn sanitize(sc: &mut ChanSc) {
   for p in sc.producers.iter_mut() {
+    // cloning a handle that was close()d is outside the properties (is the clone a live
+    // sender?): no clone operations after CloseOwn
+    if let Some(pos) = p.ops.iter().position(|o| matches!(o, POp::CloseOwn)) {
+      let mut i = 0;
+      p.ops.retain(|o| {
+        i += 1;
+        i - 1 <= pos || !matches!(o, POp::CloneSwap | POp::CloneDrop)
+      });
+    }
     for op in p.ops.iter_mut() {
       if let POp::Send { form, n, .. } = op {
         if matches!(form, SendForm::Single | SendForm::Try) {
